@@ -249,7 +249,9 @@ fn gate_matrix(gate: &mut Gate) -> Result<Matrix, GateError> {
         Lazy::new(|| array![[real!(1.0), real!(0.0)], [real!(0.0), real!(0.0)]]);
     static ONE: Lazy<Matrix> =
         Lazy::new(|| array![[real!(0.0), real!(0.0)], [real!(0.0), real!(1.0)]]);
-    if let Some(modifier) = gate.modifiers.pop() {
+    if !gate.modifiers.is_empty() {
+        // Modifiers apply from right to left, so the first (outermost) modifier owns the first qubit
+        let modifier = gate.modifiers.remove(0);
         match modifier {
             GateModifier::Controlled => {
                 gate.qubits = gate.qubits[1..].to_vec();
